@@ -258,11 +258,17 @@ def showFirst (dataTy : Option Ty) : Reply.FirstArg → Option String
   | .instOpt (some (a, i)) => some ("instopt:" ++ a ++ ":" ++ hexOrNone i)
   | .inst a i => some ("inst:" ++ a ++ ":" ++ hexOrNone i)
   | .typedOpt none => some "null"
-  | .typedOpt (some j) | .typed j =>
+  | .typedOpt (some j) =>
+    -- `opt`: the parameter is `Option<T>`, the JSON is decoded as `T`
     match dataTy, parseJsonPrefix (utf8OfHex j) with
     | some t, some (d, false) =>
       let inner := match t with | .path (.cons "Option" (.cons i .nil) .nil) => i | x => x
       ((Gen.vtyOf inner).bind fun vt => Serde.decodeVal false vt d).map (·.render)
+    | _, _ => none
+  | .typed j =>
+    -- mandatory: the JSON is decoded as the declared type itself (which may be nullable)
+    match dataTy, parseJsonPrefix (utf8OfHex j) with
+    | some t, some (d, false) => ((Gen.vtyOf t).bind fun vt => Serde.decodeVal false vt d).map (·.render)
     | _, _ => none
   | .errorText t => some ("error:" ++ t)
   | .fullResult r => some (showSub r)
